@@ -61,7 +61,8 @@ def check_coordinates(inp, out):
 
 class C10(Prop):
     id = "C10"
-    theorems = []
+    theorems = ["isPerm_mem", "transposeBy_dims", "transposeBy_axes", "transposeBy_at", "transposeBy_attrs",
+                "transpose_inv_axes", "transpose_inv_at", "newaxis_at", "squeezeDim_at", "repeatDim_at", "rollPerm_isPerm"]
     rule = ("arrays of rank 0-4 whose axes have pairwise different lengths and mixed kinds (a share with singleton "
             "axes), carrying array- and axis-level metadata; chains of 1-4 steps among transpose (list / tuple / varargs, "
             "names / positions / negative positions, default, .T), swapaxes, rollaxis (every axis, start), newaxis (every "
